@@ -292,10 +292,14 @@ class Result:
     def finding(self, fid, text, replay):
         """a genuine defect: reported as KNOWN-FINDING iff listed in known_findings.json, else as a violation"""
         if is_known(self.prop, fid):
-            self.known("[%s] %s" % (fid, text))
+            self.known_agg = getattr(self, "known_agg", {})
+            n, first = self.known_agg.get(fid, (0, text))
+            self.known_agg[fid] = (n + 1, first)
         else:
             self.violation(text, replay)
     def finish(self, checker_cmd, trusted_base, extra=None):
+        for fid, (n, first) in sorted(getattr(self, "known_agg", {}).items()):
+            self.known("[%s] %d case(s) in this run, e.g. %s" % (fid, n, first[:400]))
         bad = [o for o in self.obligations if not o[1]]
         if bad and not self.violations:
             # an undischarged obligation that no concrete failing input explains is still a violation
